@@ -311,7 +311,7 @@ def run(ctx):
     flow_g = Flow(gi.body)
     for s in call_sites(gi, lambda p, c: p == FDT + "::get_files_being_transferred"):
         fs = flow_g.facts_at(s.bb)
-        if any(a[0] == "variant" and a[2] == "ObjectsBeingTransferred" and tr and "publish_mode" in show(a[1]) for (a, tr) in fs):
+        if any(mode_is((a, tr), "ObjectsBeingTransferred") is True for (a, tr) in fs):
             r5.ok("being-transferred list only in ObjectsBeingTransferred mode", "", s.loc)
         else:
             r5.violation("being-transferred list only in ObjectsBeingTransferred mode", "list selection arms swapped or unguarded", s.loc)
